@@ -724,7 +724,7 @@ def enum_lattice(rnd, idx0, tier):
                     kw = [("e", enum_value_at(pos, vals))] + ([("n", ("int", 1))] if pos != "wrapper" else [])
                     try:
                         insts.append((kw, env.classes[name](**S.realize_kwargs(kw, env))))
-                    except Exception:  # noqa  (e.g. members of a str mix-in class are rejected as objects)
+                    except Exception:  # noqa  a value the declaration rejects (before its repair, Enum.__set__ rejected the members of a str mix-in class)
                         pass
                 env.instances[name] = [("struct", name, kw) for kw, _ in insts]
                 env.top_instances = insts
@@ -1230,6 +1230,26 @@ def rep_literal_member(doc, ctx):
     class_walk(env, env.top, doc, doc, fn, set())
 
 
+def rep_multifield_by_value_name(doc, ctx):
+    """An Enum over a class with serialization_by_value=True as an OPTION of AllOf / AnyOf / OneOf: the wrapper validates
+    the value with the option -- which accepts a member NAME -- and stores the value as it was given (options never
+    convert), so the name string is serialized as it is; the export lists the members' VALUES."""
+    env = ctx["env"]
+
+    def fn(f, s_):
+        kw = {"allof": "allOf", "anyof": "anyOf", "oneof": "oneOf"}.get(f["t"])
+        lst = s_.get(kw) if kw else None
+        if not isinstance(lst, list) or is_optional(f):
+            return
+        for g, x in zip(f["fs"], lst):
+            if g["t"] == "enumcls" and g["cls"] in G.BY_VALUE and isinstance(x, dict) and isinstance(x.get("enum"), list):
+                extra = [m for m in g["members"] if not any(isinstance(y, str) and y == m for y in x["enum"])]
+                if extra:
+                    x["enum"] = x["enum"] + extra
+                    ctx["changed"] = True
+    class_walk(env, env.top, doc, doc, fn, set())
+
+
 def rep_literal_member_exact(doc, ctx):
     """Exactness side of the same defect: the export lists the member's NAME, which the field (membership in the
     declared list) does not accept; the stricter export lists the member's value instead."""
@@ -1287,6 +1307,7 @@ WF_REPAIRS = [("patternProperties-not-an-object-of-schemas", rep_patprops), ("re
 # AST-aware repairs (they walk the declarations in parallel with the export) come before the ones that reshape it
 COMPLETE_REPAIRS = [("sign-dropped-under-explicit-bound", rep_sign),
                     ("enum-member-among-literals-serialized-as-stored", rep_literal_member),
+                    ("multi-field-option-stores-the-name-of-a-by-value-enum-member", rep_multifield_by_value_name),
                     ("Tuple-elements-serialized-without-their-item-fields", rep_tuple_untyped),
                     ("sign-only-bound-rendered-as-epsilon", rep_eps), ("nested-field-wrapper", rep_wrapper),
                     ("required-key-of-None-valued-attribute-dropped", rep_none_required),
